@@ -267,6 +267,14 @@ class Complete(Hooks):
         ops = it.state.operations
         if self.viol:
             return
+        want = getattr(it, 'last_commentary', None)
+        if want is not None and len(ops) > self.n0 and \
+                ops[self.n0].commentary != want:
+            self.viol.append(V(
+                ID, 'commentary_not_logged', kind,
+                f'{kind}{args!r} was given commentary {want!r}, the logged'
+                f' record carries {ops[self.n0].commentary!r}'))
+            return
         if len(ops) <= self.n0 or ops[self.n0] != result:
             self.viol.append(V(
                 ID, 'operation_not_logged', kind,
